@@ -12,7 +12,8 @@ THOROUGH_EXHAUSTIVE = True
 VM_CASES = 25
 RULE = ('case = a fresh application, 1..3 routes (literal, wildcard, shared pattern) and a random history of method-table '
         'edits on them (add with method subsets incl. ANY and lower/mixed-case spellings, overwrite=True, rejected adds, '
-        'remove_method incl. removal to the empty table and wrong-case removal), then every request verb of '
+        'remove_method incl. removal to the empty table and wrong-case removal) with probes (3 verbs, one of them '
+        'unregistered) after EVERY edit on the same router object, then every request verb of '
         '{GET,HEAD,POST,PUT,DELETE,PATCH,OPTIONS,ANY,BREW,get,Head} on matched and unmatched paths, observed through '
         'Ombott.to_route and Ombott.__call__ (status line, Allow header, handler called). thorough: all subsets of '
         '{GET,HEAD,POST,ANY} x 6 verbs x {matched, unmatched}. non-trivial = the history contains an overwrite, a '
@@ -45,6 +46,12 @@ def corpus():
     cs.append(dict(cmds=[dict(op='add', rule='/s', methods=['GET'], h=1),
                          dict(op='add', rule='/s', methods=['PUT', 'get'], h=2),
                          dict(op='add', rule='/s', methods=['PUT', 'Get'], h=3, overwrite=True)] + _probe_all(['/s'])))
+    # a 405 before and after every edit on one router object: Allow follows the table (no stale/cached Allow)
+    cs.append(dict(cmds=[dict(op='add', rule='/s', methods=['GET', 'POST', 'PUT'], h=1)] + _probe_all(['/s'], ['BREW'])
+                   + [dict(op='remove_method', rule='/s', methods=['POST'])] + _probe_all(['/s'], ['BREW', 'POST'])
+                   + [dict(op='add', rule='/s', methods=['DELETE'], h=2)] + _probe_all(['/s'], ['BREW'])
+                   + [dict(op='add', rule='/s', methods=['get'], h=3, overwrite=True)] + _probe_all(['/s'], ['BREW'])
+                   + [dict(op='remove_method', rule='/s', methods=['GET', 'PUT', 'DELETE'])] + _probe_all(['/s'], ['BREW', 'GET'])))
     # HEAD registered explicitly wins over GET
     cs.append(dict(cmds=[dict(op='add', rule='/s', methods=['GET'], h=1), dict(op='add', rule='/s', methods=['HEAD'], h=2)]
                    + _probe_all(['/s'])))
@@ -75,12 +82,19 @@ def gen(rng, n):
         for i, (rule, hit, miss) in enumerate(picks):
             cmds += _history(rng, rule, 10 * (i + 1))
         rng.shuffle(cmds)
+        hit_of = {rule: hit for rule, hit, miss in RULES}
+        # probes interleaved after EVERY edit, on the same router object: a 405 seen before an edit must not
+        # leak into the answer after it (cached Allow, stale tables ...)
+        inter = []
+        for c in cmds:
+            inter.append(c)
+            vs = rng.sample(VERBS, 2) + [rng.choice(['BREW', 'OPTIONS', 'PATCH'])]
+            inter += _probe_all([hit_of[c['rule']]], vs)
         paths = []
         for rule, hit, miss in picks:
             paths += [hit, miss]
-        verbs = rng.sample(VERBS, 6) + ['HEAD', 'GET']
-        cmds += _probe_all(paths, verbs)
-        yield dict(cmds=cmds)
+        verbs = rng.sample(VERBS, 5) + ['HEAD', 'GET']
+        yield dict(cmds=inter + _probe_all(paths, verbs))
 
 
 def thorough():
